@@ -167,6 +167,37 @@ def translate(c):
     return out
 
 
+def refresh_race(c):
+    """decidable class of C01-refresh-race: some Refresh runs while a queued change and the
+    current RIB disagree on a (dest_id, prefix) binding"""
+    ids = {}            # net -> dest_id (lowest free)
+    chan = []           # queued (net, id)
+    reg = False
+    for ls in translate(c):
+        for l in ls:
+            t = l[0]
+            if t in ('set', 'touch'):
+                if l[1] not in ids:
+                    i = 0
+                    while i in ids.values(): i += 1
+                    ids[l[1]] = i
+                if t == 'set' and reg: chan.append((l[1], ids[l[1]]))
+            elif t == 'free':
+                if l[1] in ids:
+                    i = ids.pop(l[1])
+                    if l[2] and reg: chan.append((l[1], i))
+            elif t == 'deliver':
+                if chan: chan.pop(0)
+            elif t == 'register':
+                chan, reg = [], True
+            elif t == 'refresh' and reg:
+                for net, i in chan:
+                    for n2, i2 in ids.items():
+                        if (net == n2) != (i == i2):
+                            return True
+    return False
+
+
 def label_coq(l):
     t = l[0]
     if t == 'set':
@@ -364,6 +395,20 @@ class Prop:
         return None
 
     def in_known_class(self, kf, c, obs, why):
+        import re
+        if kf['id'] == 'C01-refresh-race':
+            return refresh_race(c)
+        if kf['id'] == 'C01-llgr-stale-not-resent':
+            # the failing check differs from the from-scratch dump only in LLGR_STALE markers
+            # the neighbour has not been sent
+            m = re.search(r'obs (\d+)', why)
+            o = (obs[1] if why.startswith('session') else obs[0])[int(m.group(1))]
+            chk = o[4] if o[0] == 3 else o[2]
+            mirror, fresh = chk[0], chk[1]
+            if len(mirror) != len(fresh):
+                return False
+            diff = [(a, b) for a, b in zip(mirror, fresh) if a != b]
+            return bool(diff) and all(a[:4] == b[:4] and a[4] == 0 and b[4] == 1 for a, b in diff)
         return False
 
     def nontrivial_key(self, c, obs):
